@@ -1,6 +1,6 @@
-// Package simtest holds the scenarios (workload + environment + oracle) for
-// each property; they run real vouch code compiled through the vinject overlay.
-package simtest
+// Package env holds what the per-property scenario packages share: stub
+// parties, key material, chain parameters and small helpers.
+package env
 
 import (
 	"fmt"
@@ -22,11 +22,11 @@ func init() {
 	deadlock.Opts.Disable = true
 }
 
-func viol(kind, format string, a ...any) *simrt.Violation {
+func Viol(kind, format string, a ...any) *simrt.Violation {
 	return &simrt.Violation{Kind: kind, Detail: fmt.Sprintf(format, a...)}
 }
 
-func sortedKeys[V any](m map[string]V) []string {
+func SortedKeys[V any](m map[string]V) []string {
 	ks := make([]string, 0, len(m))
 	for k := range m {
 		ks = append(ks, k)
@@ -35,7 +35,5 @@ func sortedKeys[V any](m map[string]V) []string {
 	return ks
 }
 
-// simEpoch is the fake clock's start inside every bubble.
-var simEpoch = time.Date(2000, 1, 1, 0, 0, 0, 0, time.UTC)
-
-const ns = time.Nanosecond
+// SimEpoch is the fake clock's start inside every bubble.
+var SimEpoch = time.Date(2000, 1, 1, 0, 0, 0, 0, time.UTC)
